@@ -498,3 +498,92 @@ pub fn bytes_to_json(b: &[u8]) -> Value {
 pub fn bytes_from_json(v: &Value) -> Option<Vec<u8>> {
     hex::decode(v.get("hex")?.as_str()?).ok()
 }
+
+// ---------------------------------------------------------------------------------------------
+// crash capture: SIGSEGV / SIGBUS / SIGILL / SIGABRT inside the library (possible once `unsafe` or
+// unbounded recursion is involved) must become a verdict with a replay, not a dead harness.
+
+pub static CRASH_CTX: [[AtomicU64; 2]; 64] = {
+    #[allow(clippy::declare_interior_mutable_const)]
+    const Z: [AtomicU64; 2] = [AtomicU64::new(u64::MAX), AtomicU64::new(u64::MAX)];
+    [Z; 64]
+};
+static NEXT_CRASH_SLOT: AtomicU64 = AtomicU64::new(0);
+thread_local! {
+    static CRASH_SLOT: std::cell::Cell<usize> = const { std::cell::Cell::new(usize::MAX) };
+}
+
+/// Record what this thread is about to execute (run index, case index inside the run).
+#[inline]
+pub fn crash_mark(run: u64, case: u64) {
+    let slot = CRASH_SLOT.with(|s| {
+        if s.get() == usize::MAX {
+            s.set(NEXT_CRASH_SLOT.fetch_add(1, Ordering::Relaxed) as usize % 64);
+        }
+        s.get()
+    });
+    CRASH_CTX[slot][0].store(run, Ordering::Relaxed);
+    CRASH_CTX[slot][1].store(case, Ordering::Relaxed);
+}
+
+fn put_num(buf: &mut [u8; 160], pos: &mut usize, mut v: u64) {
+    let mut tmp = [0u8; 20];
+    let mut n = 0;
+    if v == 0 {
+        tmp[0] = b'0';
+        n = 1;
+    }
+    while v > 0 {
+        tmp[n] = b'0' + (v % 10) as u8;
+        v /= 10;
+        n += 1;
+    }
+    while n > 0 && *pos < buf.len() {
+        n -= 1;
+        buf[*pos] = tmp[n];
+        *pos += 1;
+    }
+}
+
+fn put_str(buf: &mut [u8; 160], pos: &mut usize, s: &[u8]) {
+    for b in s {
+        if *pos < buf.len() {
+            buf[*pos] = *b;
+            *pos += 1;
+        }
+    }
+}
+
+extern "C" fn crash_handler(sig: libc::c_int) {
+    // async-signal-safe only: no allocation, no locks; format into a stack buffer and write(2)
+    let slot = CRASH_SLOT.with(|s| s.get());
+    let (run, case) = if slot < 64 { (CRASH_CTX[slot][0].load(Ordering::Relaxed), CRASH_CTX[slot][1].load(Ordering::Relaxed)) } else { (u64::MAX, u64::MAX) };
+    let mut buf = [0u8; 160];
+    let mut pos = 0;
+    put_str(&mut buf, &mut pos, b"\nPGSIM-CRASH signal=");
+    put_num(&mut buf, &mut pos, sig as u64);
+    put_str(&mut buf, &mut pos, b" run=");
+    put_num(&mut buf, &mut pos, run);
+    put_str(&mut buf, &mut pos, b" case=");
+    put_num(&mut buf, &mut pos, case);
+    put_str(&mut buf, &mut pos, b"\n");
+    // SAFETY: write(2) and _exit(2) are async-signal-safe
+    unsafe {
+        libc::write(1, buf.as_ptr() as *const libc::c_void, pos);
+        libc::_exit(3);
+    }
+}
+
+/// Exit code 3 + a `PGSIM-CRASH signal=N run=R case=C` line = the process died inside a library call.
+pub fn install_crash_handler() {
+    // SAFETY: installing plain signal handlers; SA_ONSTACK uses the alternate stacks std sets up
+    unsafe {
+        let mut sa: libc::sigaction = std::mem::zeroed();
+        sa.sa_sigaction = crash_handler as usize;
+        sa.sa_flags = libc::SA_ONSTACK;
+        libc::sigemptyset(&mut sa.sa_mask);
+        for sig in [libc::SIGSEGV, libc::SIGBUS, libc::SIGILL, libc::SIGABRT, libc::SIGFPE] {
+            libc::sigaction(sig, &sa, std::ptr::null_mut());
+        }
+    }
+}
